@@ -1352,6 +1352,9 @@ func (f *FuncCtx) countedFor(s *ast.ForStmt, env *Env, post func(e *Env)) (map[s
 				boundObj = f.info().ObjectOf(aid)
 			}
 		}
+		if boundObj == nil {
+			return nil, nil, nil
+		}
 	case *ast.BasicLit:
 	default:
 		return nil, nil, nil
@@ -1441,7 +1444,12 @@ func (f *FuncCtx) countedFor(s *ast.ForStmt, env *Env, post func(e *Env)) (map[s
 		iv := e.vars[obj].T
 		out := []string{fmt.Sprintf("(<= 0 %s)", g), fmt.Sprintf("(= %s (+ %s %s))", iv, startT, g)}
 		bound := f.expr(be.Y, e).T
-		out = append(out, fmt.Sprintf("(or (<= %s %s) (= %s 0))", iv, bound, g))
+		if _, isLen := ast.Unparen(be.Y).(*ast.CallExpr); isLen && startT == "0" {
+			// counting from 0 up to a length: 0 <= i <= len(x) throughout
+			out = append(out, fmt.Sprintf("(<= 0 %s)", bound), fmt.Sprintf("(<= %s %s)", iv, bound))
+		} else {
+			out = append(out, fmt.Sprintf("(or (<= %s %s) (= %s 0))", iv, bound, g))
+		}
 		return out
 	}
 	gpost := func(e *Env) {
